@@ -16,6 +16,8 @@ pub struct Pat {
 pub struct Def {
     pub name: String,
     pub utf8: bool,
+    /// further enum-level `#[logos(..)]` arguments
+    pub attrs: Vec<String>,
     /// enum-level skips: (literal, priority, extra)
     pub skips: Vec<(String, usize, String)>,
     pub pats: Vec<Pat>,
@@ -28,6 +30,7 @@ pub fn table_defs() -> Vec<Def> {
         .map(|d| Def {
             name: d.name.to_string(),
             utf8: d.utf8,
+            attrs: d.attrs.iter().map(|a| a.to_string()).collect(),
             skips: d.skips.iter().map(|(l, p, e)| (l.to_string(), *p, e.to_string())).collect(),
             pats: d
                 .pats
@@ -44,6 +47,8 @@ pub fn payload(cb: Cb, utf8: bool) -> Option<&'static str> {
         Cb::Unit | Cb::Skip | Cb::SkipClosure | Cb::BoolShort => None,
         Cb::Len | Cb::FilterEven | Cb::OptOdd => Some("usize"),
         Cb::Borrow => Some(if utf8 { "&'s str" } else { "&'s [u8]" }),
+        Cb::CountSkip => None,
+        Cb::Seq | Cb::Line => Some("u32"),
     }
 }
 
@@ -57,7 +62,17 @@ pub fn callback(cb: Cb) -> Option<&'static str> {
         Cb::OptOdd => Some("|lex| { let n = lex.slice().len(); if n % 2 == 1 { Some(n) } else { None } }"),
         Cb::BoolShort => Some("|lex| lex.slice().len() < 3"),
         Cb::Borrow => Some("|lex| lex.slice()"),
+        Cb::CountSkip => Some("|lex| { lex.extras.n += 1; logos::Skip }"),
+        Cb::Seq => Some("|lex| { lex.extras.n += 1; lex.extras.n }"),
+        Cb::Line => Some("|lex| lex.extras.n"),
     }
+}
+
+/// The definition reads or advances the `Ctr` extras.
+pub fn is_stateful(d: &Def) -> bool {
+    d.pats.iter().any(|p| matches!(p.cb, Cb::CountSkip | Cb::Seq | Cb::Line))
+        || d.attrs.iter().any(|a| a.contains("extras"))
+        || d.skips.iter().any(|(_, _, e)| e.contains("extras"))
 }
 
 pub fn enum_source(d: &Def) -> String {
@@ -67,6 +82,12 @@ pub fn enum_source(d: &Def) -> String {
     s.push_str("#[derive(logos::Logos, Debug, Clone, PartialEq)]\n");
     if !d.utf8 {
         s.push_str("#[logos(utf8 = false)]\n");
+    }
+    if is_stateful(d) {
+        s.push_str("#[logos(extras = Ctr)]\n");
+    }
+    for a in &d.attrs {
+        let _ = writeln!(s, "#[logos({})]", a);
     }
     for (lit, prio, extra) in &d.skips {
         let _ = writeln!(s, "#[logos(skip({}, priority = {}{}))]", lit, prio, if extra.is_empty() { String::new() } else { format!(", {}", extra) });
@@ -182,7 +203,7 @@ pub fn conflict_family_def(rng: &mut Rng, name: &str) -> Def {
         pats.push(dup);
     }
     let frags = VOCAB.iter().map(|s| s.to_string()).collect();
-    Def { name: name.to_string(), utf8: true, skips: Vec::new(), pats, frags }
+    Def { name: name.to_string(), utf8: true, attrs: Vec::new(), skips: Vec::new(), pats, frags }
 }
 
 /// A random definition. `conflicts`: allow equal priorities (the derive may then reject it).
@@ -249,7 +270,7 @@ pub fn random_def(rng: &mut Rng, name: &str, conflicts: bool, many_tokens: bool)
     if kept.is_empty() {
         kept.push(Pat { attr: "token".into(), lit: "\"a\"".into(), prio: 41, cb: Cb::Unit, extra: String::new(), var: "V0".into() });
     }
-    Def { name: name.to_string(), utf8, skips, pats: kept, frags }
+    Def { name: name.to_string(), utf8, attrs: Vec::new(), skips, pats: kept, frags }
 }
 
 
